@@ -964,3 +964,68 @@ def hashlib_new(algo):
         return H.new(algo)
     except Exception:
         return None
+
+
+# ----------------------------------------------------------------------------- systematic (not sampled) histories
+
+def systematic_cases(rng):
+    """Deterministic short histories run in EVERY quick and thorough run of C01/C06/C11 for EVERY
+    (algorithm, family) pair and both entry layers where reachable (family entry points; isal_
+    wrappers through the dispatcher).  Only the data seeds come from the PRNG.
+    1. in-flight resubmission: a context is put into each stage it can be in flight in —
+       PROCESSING (FIRST data, 2 blocks + tail), PROCESSING|LAST (LAST data, 2 blocks + tail),
+       PROCESSING|COMPLETE (padding stage: ENTIRE shorter than a block) — with and without a
+       bystander context in flight, then THE SAME context is resubmitted with each flags value
+       FIRST, UPDATE, LAST, ENTIRE and an invalid one; drain; restart the context; drain.
+       3 stages x 5 flags x 2 = 30 histories per pair and layer.
+    2. one history each: zero-length LAST that fills the manager; the submit that hands a job back
+       (lanes full) followed IMMEDIATELY by flush; flush with exactly one live lane; flush on the
+       empty manager (before anything, and after draining); context reuse after completion."""
+    out = []
+    wok = wrapper_pairs()
+    sd = lambda: rng.next() & 0xffffffffffff
+    for algo, family in pairs():
+        f = fam(algo, family)
+        B = block(algo)
+        lanes = f["lanes"]
+        modes = ["D"] + (["W"] if wok.get((algo, family)) == "ok" else [])
+        for mode in modes:
+            def case(ops, nctx, aim):
+                out.append({"algo": algo, "fam": family, "mode": mode, "nctx": nctx, "tmo": 20, "ops": ops, "aim": aim})
+            for stage in ("P", "PL", "PC"):
+                for fl in (1, 0, 2, 3, 4):
+                    for bystander in (0, 1):
+                        ops = []
+                        if bystander:
+                            ops.append("S1,1,%d,b9,%x" % (3 * B + 2, sd()))
+                        if stage == "P":
+                            ops.append("S0,1,%d,e,%x" % (2 * B + 5, sd()))
+                        elif stage == "PL":
+                            ops.append("S0,1,5,b3,%x" % sd())
+                            ops.append("S0,2,%d,e,%x" % (2 * B + 3, sd()))
+                        else:
+                            ops.append("S0,3,29,b7,%x" % sd())
+                        ops.append("S0,%x,%d,b21,%x" % (fl, B + 1, sd()))
+                        ops += ["D", "A0,3,10,e,%x" % sd()]
+                        if bystander:
+                            ops.append("A1,2,0,e,%x" % sd())
+                        ops.append("D")
+                        case(ops, 3, "sys:resubmit-%s-fl%x-%s" % (stage, fl, "bystander" if bystander else "alone"))
+            L = max(lanes, 1)
+            # zero-length LAST that takes the last free lane
+            ops = ["S%d,1,%d,b%d,%x" % (c, (c + 2) * B, c % 64, sd()) for c in range(L - 1)]
+            ops += ["S%d,1,7,e,%x" % (L - 1, sd()), "S%d,2,0,e,%x" % (L - 1, sd()), "D"]
+            ops += ["A%d,2,0,e,%x" % (c, sd()) for c in range(L - 1)] + ["D"]
+            case(ops, L + 1, "sys:zero-length-LAST-fills-manager")
+            # the submit that hands a job back, immediately followed by flush
+            ops = ["S%d,1,%d,e,%x" % (c, (1 + (c * 5) % 7) * B + c, sd()) for c in range(L)] + ["F"]
+            ops += ["A%d,2,%d,b5,%x" % (c, c, sd()) for c in range(L)] + ["D"]
+            case(ops, L + 1, "sys:full-submit-then-flush")
+            # flush with exactly one live lane
+            case(["S0,1,%d,e,%x" % (3 * B, sd()), "F", "A0,2,1,e,%x" % sd(), "F", "D"], 2, "sys:flush-one-live-lane")
+            # flush on the empty manager, before anything and after draining
+            case(["F", "F", "A0,3,%d,b1,%x" % (B + 9, sd()), "D", "F", "F"], 1, "sys:flush-empty")
+            # context reuse after completion
+            case(["A0,3,70,e,%x" % sd(), "D", "A0,1,%d,e,%x" % (B - 1, sd()), "A0,0,%d,b2,%x" % (B + 1, sd()), "A0,2,0,e,%x" % sd(), "D",
+                  "A0,3,0,e,%x" % sd(), "D", "A0,1,0,e,%x" % sd(), "A0,2,%d,e,%x" % (2 * B, sd()), "D"], 1, "sys:context-reuse")
+    return out
